@@ -76,7 +76,7 @@ def explore_algebra(case):
     prog = sxvm.compile_fn(B.get("left_jacobian"))
     rs = [i for i, s in enumerate(AL) if s[0] == "rotvec"][0]
     base = [alpha.generic_vec(seed, 3) if s[0] == "vec" else np.zeros(3) for s in AL]
-    for ax in (np.array([0.0, 0, 1.0]), alpha.generic_axis(seed)):
+    for ax in ((np.array([0.0, 0, 1.0]), alpha.generic_axis(seed)) if tier != "thorough" else tuple(alpha.axes(seed))):
         def mk(t, ax=ax):
             parts = [b.copy() for b in base]
             parts[rs] = ax * t
